@@ -304,6 +304,11 @@ func (r *SparseInt16Vector) VDIVS(a *SparseInt16Vector, b Int16) *SparseInt16Vec
   if r.Dim() != a.Dim() {
     panic("vector dimensions do not match")
   }
+  if b.GetInt16() == 0 {
+    // division by zero also affects positions without an entry
+    r.VdivS(a, b)
+    return r
+  }
   for it := r.JOINT_ITERATOR_(a); it.Ok(); it.Next() {
     s_r := it.s1
     s_a := it.s2
